@@ -75,9 +75,10 @@ type ment struct {
 }
 
 type omap struct {
-	idx  map[interface{}]int
-	ents []ment
-	live int
+	idx    map[interface{}]int
+	ents   []ment
+	live   int
+	rotate bool // range starts at a nondeterministic offset (models Go's random iteration start)
 }
 
 func newOmap() *omap { return &omap{idx: map[interface{}]int{}} }
@@ -157,13 +158,23 @@ func (m *omap) len() int {
 }
 
 type mapIter struct {
-	m *omap
-	i int
+	m     *omap
+	i     int
+	start int
+	wrap  bool
 }
 
 func (it *mapIter) next(fr *frame) tuple {
 	if it.m != nil {
-		for it.i < len(it.m.ents) {
+		for {
+			if !it.wrap && it.i >= len(it.m.ents) {
+				// entries inserted during iteration are visited; then wrap around to the part before start
+				it.wrap = true
+				it.i = 0
+			}
+			if it.wrap && it.i >= it.start {
+				break
+			}
 			e := it.m.ents[it.i]
 			it.i++
 			if !e.dead {
@@ -172,6 +183,25 @@ func (it *mapIter) next(fr *frame) tuple {
 		}
 	}
 	return tuple{false, nil, nil}
+}
+
+func newMapIter(fr *frame, m *omap) *mapIter {
+	it := &mapIter{m: m}
+	if m != nil && m.rotate && m.live > 1 {
+		// choose which live entry comes first
+		k := fr.p.choose(fr, m.live)
+		for i, e := range m.ents {
+			if e.dead {
+				continue
+			}
+			if k == 0 {
+				it.start, it.i = i, i
+				break
+			}
+			k--
+		}
+	}
+	return it
 }
 
 type stringIter struct {
